@@ -29,6 +29,61 @@ def global_array_values(prog, name):
     return None
 
 
+def wrapper_install_rule(prog, run, rid):
+    """The memory-report plugin puts a reporting wrapper in front of the current allocator of each family (malloc, new, new[]).
+    Folded against a model of the three 'current allocator' cells: after installing, the current allocator of every family is a
+    wrapper of its own whose real allocator is what was current for THAT family (so actualAllocator() still names the family and a
+    cross-family release is still a mismatch); removing puts back, per family, what was current before."""
+    FAMS = ("Malloc", "New", "NewArray")
+    PL = "MemoryReporterPlugin"
+    inst, rem = prog.fn(PL + "::setGlobalMemoryReportAllocators"), prog.fn(PL + "::removeGlobalMemoryReportAllocators")
+    run.analysed(inst)
+    run.analysed(rem)
+
+    def fold(f, cur, real):
+        ev = Evaluator(prog, f, env={})
+        ev.heap_mode = True
+        ev.pass_object = "key"
+        ev.inline = {g.qn for g in prog.functions.values() if g.qn.startswith(PL + "::")} - {PL + "::" + n for n in ("createMemoryFormatter", "destroyMemoryFormatter")}
+        for fam in FAMS:
+            ev.calls["getCurrent%sAllocator" % fam] = lambda *a_, fam=fam: cur[fam]
+            ev.calls["setCurrent%sAllocator" % fam] = lambda *a_, fam=fam: (cur.__setitem__(fam, a_[-1]), 0)[1]
+        ev.calls["MemoryReportAllocator::setRealAllocator"] = lambda *a_: (real.__setitem__(a_[0], a_[-1]), 0)[1]
+        ev.calls["MemoryReportAllocator::getRealAllocator"] = lambda *a_: real.get(a_[0], 0)
+        ev.run_blocks(f.entry, max_steps=3000)
+
+    orig = {"Malloc": 7001, "New": 7002, "NewArray": 7003}
+    try:
+        cur, real = dict(orig), {}
+        fold(inst, cur, real)
+        why = ""
+        if len(set(cur.values())) != 3 or any(cur[fam] == orig[fam] or not isinstance(cur[fam], str) for fam in FAMS):
+            why = "after installing, the current allocators are %s: not one wrapper of its own per family" % cur
+        else:
+            for fam in FAMS:
+                if real.get(cur[fam]) != orig[fam]:
+                    why = "the %s wrapper (%s) is put in front of %s, but the %s allocator that was current is %s" % (fam, cur[fam], {v: k for k, v in orig.items()}.get(real.get(cur[fam]), real.get(cur[fam])), fam, orig[fam])
+                    break
+        run.ob(rid, "installing the report allocators: every family's current allocator becomes its own wrapper around what was current for that family", inst.site, not why,
+               witness={"current": dict(cur), "real": dict(real)}, what="" if not why else "the wrapper resolves (actualAllocator) to another family's allocator: a cross-family release is no longer a mismatch, a matching one is: " + why)
+        inst_cur = dict(cur)
+        fold(rem, cur, real)
+        ok = cur == orig
+        run.ob(rid, "removing the report allocators after installing them puts back, per family, the allocator that was current before", rem.site, ok, witness={"current": dict(cur)},
+               what="" if ok else "after the plugin ran the current allocators are %s, before it they were %s" % (cur, orig))
+        # a family whose current allocator was replaced by someone else meanwhile is left alone
+        for fam in FAMS:
+            cur = dict(inst_cur)
+            cur[fam] = 7999
+            fold(rem, cur, real)
+            want = dict(orig)
+            want[fam] = 7999
+            run.ob(rid, "removing while the %s allocator was replaced by someone else: that one stays, the other two are put back" % fam, rem.site, cur == want, witness={"current": dict(cur)},
+                   what="" if cur == want else "current allocators %s, expected %s" % (cur, want))
+    except Unknown as u:
+        raise AnalysisBroken("C06.%s: the report-allocator installation cannot be folded: %s" % (rid, u))
+
+
 def check(ctx, run):
     prog = ctx.program()
     run.assume("user code writes only through the pointer it was given; which bytes it writes is not decided")
@@ -37,6 +92,7 @@ def check(ctx, run):
     run.rule("R2", "guard writer/reader agreement folded: what addMemoryCorruptionInformation writes validates; every single changed guard byte (each position x other values) is rejected; every call site passes memory + size", floor=12, exhaustive=True)
     run.rule("R3", "deallocMemory skeleton: NULL returns silently; unknown address => one non-allocated report and no free; known => checkForCorruption then free_memory once", floor=3)
     run.rule("R4", "poisoning (SIBLING over the release wrappers): invalidateMemory(p) precedes deallocMemory(..., p, ...) with the same pointer; invalidateMemory fills size_ bytes of a known block with a non-zero constant", floor=7)
+    run.rule("R6", "wrapper installation (memory-report plugin) folded against a model of the three current-allocator cells: each family's wrapper is put in front of that family's own allocator, removal restores each family, a foreign allocator installed meanwhile is left alone", floor=5)
     run.rule("R5", "wrapper allocators (SIBLING over the class hierarchy): every TestMemoryAllocator subclass that holds another allocator resolves actualAllocator() through that member's actualAllocator()", floor=4)
 
     # ---------------- R1 ----------------------------------------------------
@@ -317,6 +373,7 @@ def check(ctx, run):
                what="" if ok else "a chain of wrappers is not resolved to the real allocator")
     if n5 < 4:
         run.broke("only %d wrapper allocator classes found (4 confirmed by hand)" % n5)
+    wrapper_install_rule(prog, run, "R6")
     base = prog.fn("TestMemoryAllocator::actualAllocator")
     rets = [render(base, base.node(n.get("value"))) for n in base.walk() if n["k"] == "ReturnStmt"]
     run.ob("R5", "a plain allocator is its own actual allocator", base.site, rets == ["this"], witness=rets)
